@@ -53,6 +53,9 @@ pub struct WorkerReport {
     /// signature -> (count, one replay path)
     #[serde(default)]
     pub known_hits: BTreeMap<String, (u64, String)>,
+    /// bounded-exhaustive slice (component checks): scenarios, schedules, exhausted
+    #[serde(default)]
+    pub exhaustive_slice: Option<(u64, u64, bool)>,
 }
 
 #[derive(Clone, Debug)]
@@ -325,6 +328,9 @@ pub fn run_parent(meta: &CheckMeta, tier: &str, seed: u64, regress_replays: usiz
                         e.1 = path;
                     }
                 }
+                if let Some(x) = r.exhaustive_slice {
+                    agg.exhaustive_slice = Some(x);
+                }
                 agg.inconclusive += r.inconclusive;
                 agg.inconclusive_samples.extend(r.inconclusive_samples.into_iter().take(2));
                 all_exhaustive &= r.exhaustive;
@@ -364,6 +370,7 @@ pub fn run_parent(meta: &CheckMeta, tier: &str, seed: u64, regress_replays: usiz
             "inconclusive_samples": agg.inconclusive_samples.iter().take(4).collect::<Vec<_>>(),
             "exhaustive": all_exhaustive && agg.evaluations > 0 && meta.level == "model_checking",
             "worker_processes": workers,
+            "exhaustive_slice": agg.exhaustive_slice.map(|(sc, n, done)| json!({"scenarios": sc, "schedules_enumerated": n, "every_schedule_of_every_scenario_enumerated": done, "note": "all interleavings (at hook granularity) of the tiny scenarios listed in DESIGN.md 4b; the rest of this run is sampled"})),
             "regression_replays_passed": regress_replays,
             "known_findings_hit": known_hits.iter().map(|(k, f)| json!({"what": k.what, "replay": f.replay})).chain(agg.known_hits.iter().map(|(sig, (n, path))| json!({"signature": sig, "hits": n, "replay": path}))).collect::<Vec<_>>(),
         },
